@@ -692,7 +692,7 @@ _JUDGE: Judge | None = None
 _CONFIRMED: Counter[Any] = Counter()
 
 
-def _enum_task(args: tuple[int, int, int, list[tuple[int, int, int]] | None]) -> tuple[Counter[str], list[tuple[int, dict[str, Any], Violation]], int, int]:
+def _enum_task(args: tuple[int, int, int, list[tuple[int, int, int]] | None]) -> tuple[Counter[str], list[tuple[int, dict[str, Any], Violation]], int, int, list[int]]:
     """Enumerated single faults.  Either one chunk (eof@k and drop@k for k = first,
     first+step, ...) or an explicit list of (mode, chunk, offset)."""
     import faulthandler
@@ -704,6 +704,7 @@ def _enum_task(args: tuple[int, int, int, list[tuple[int, int, int]] | None]) ->
     viols: list[tuple[int, dict[str, Any], Violation]] = []
     done = 0
     maxev = 0
+    fps: list[int] = []
     if explicit is not None:
         todo = explicit
     else:
@@ -718,6 +719,8 @@ def _enum_task(args: tuple[int, int, int, list[tuple[int, int, int]] | None]) ->
             merge_stats(st, r.stats)
             done += 1
             maxev = max(maxev, r.steps)
+            if r.nontrivial:
+                fps.append(r.fingerprint)
             for v in ([r.violation] if r.violation else []) + r.extra_violations:
                 if len(viols) < 20:
                     viols.append((-1, rec, v))
@@ -726,7 +729,7 @@ def _enum_task(args: tuple[int, int, int, list[tuple[int, int, int]] | None]) ->
                 break
     finally:
         faulthandler.cancel_dump_traceback_later()
-    return st, viols, done, maxev
+    return st, viols, done, maxev, fps
 
 
 def _strata(corpus: Corpus, seed: int) -> list[tuple[int, ...]]:
@@ -1010,6 +1013,7 @@ class StreamEngine(Engine):
         viols: list[tuple[int, dict[str, Any], Violation]] = []
         done = 0
         maxev = 0
+        fpset: set[int] = set()
         t0 = time.monotonic()
         chunks_done = 0
         capped = False
@@ -1022,7 +1026,8 @@ class StreamEngine(Engine):
                 for f in as_completed(futs):
                     if f.cancelled():
                         continue
-                    s, v, d, m = f.result()
+                    s, v, d, m, fp = f.result()
+                    fpset.update(fp)
                     merge_stats(st, s)
                     viols.extend(v)
                     done += d
@@ -1047,7 +1052,8 @@ class StreamEngine(Engine):
                 "complete_for_slice": not capped,
                 "wall_capped": capped,
             },
-            "enumerated_distinct": done,
+            "enumerated_distinct": len(fpset),
+            "enumerated_fingerprints": fpset,
             "exhaustive": bool(step == 1 and not capped),
         }
         return st, viols, cov
